@@ -14,6 +14,13 @@ func (l *Local) Readdir(offset uint64, count uint32) (p9.Dirents, error) {
 		cursor = uint64(0)
 	)
 
+	// The cursor counts entries from the start of the directory, so the
+	// directory stream has to start there too: it is shared by all Readdir
+	// calls on this file and the previous call left it wherever it stopped.
+	if _, err := l.file.Seek(0, io.SeekStart); err != nil {
+		return nil, err
+	}
+
 	for len(p9Ents) < int(count) {
 		singleEnt, err := l.file.Readdirnames(1)
 
@@ -26,8 +33,9 @@ func (l *Local) Readdir(offset uint64, count uint32) (p9.Dirents, error) {
 		// we consumed an entry
 		cursor++
 
-		// cursor \in (offset, offset+count)
-		if cursor < offset || cursor > offset+uint64(count) {
+		// offset is the Offset of the last entry the client has received:
+		// everything up to and including it was already listed.
+		if cursor <= offset {
 			continue
 		}
 
